@@ -29,7 +29,9 @@ type Oracle struct {
 	OnEmpty    int // blocks committed on top of a state whose root has length 0
 	// classes of the history (for signatures)
 	tornCommit bool // a crash cut a step inside its commit group (between the state write and the store-height write)
-	cutStop    bool // a shutdown died between two cache files
+	cutStop    bool // a shutdown died somewhere inside SaveCache
+	tornWrite  bool // ... between the creation of a cache file and the end of its write (an empty or partly written file)
+	SweepPts   int  // crash points of real SaveCache calls evaluated exhaustively (afterSave)
 	tampered   bool // a cache file was truncated by hand (not a crash): start-up may then fail in LoadCache
 	earlyEmpty bool // an empty batch older than the last block was handed out
 	Peeks      int  // reads made by a client of the node while the execution layer worked
@@ -59,6 +61,8 @@ func (o *Oracle) cause(dflt string) string {
 	switch {
 	case o.tornCommit:
 		return "crash-between-height-and-state-write"
+	case o.tornWrite:
+		return "crash-inside-cache-file-write"
 	case o.cutStop:
 		return "torn-cache-file"
 	case o.earlyEmpty:
@@ -91,6 +95,25 @@ func (o *Oracle) afterBoot(idx int, it Item, initOK bool, err error) {
 	}
 	if err != nil && !(it.InitErr && classify(err) == "boot-fail-init") {
 		o.fail(o.cause("boot-failed"), fmt.Sprintf("item %d: NewManager failed: %v", idx, err))
+	}
+}
+
+// afterSave: C04 "a crash in the middle of writing the on-disk caches at shutdown never leaves the node unable to
+// start", evaluated exhaustively on the operations the real SaveCache just performed: EVERY crash point of it (after
+// each file operation, inside each write after each number of bytes) must leave a directory the real LoadFromDisk
+// accepts - provided the directory was loadable before (damage by hand is outside the property).
+func (o *Oracle) afterSave(idx int, before DirImage, ops []FOp) {
+	if o.tampered {
+		return
+	}
+	pts, what, torn := o.w.sweepCrashPoints(before, ops)
+	o.SweepPts += pts
+	if what != "" {
+		sig := "torn-cache-file"
+		if torn {
+			sig = "crash-inside-cache-file-write"
+		}
+		o.fail(sig, fmt.Sprintf("item %d (shutdown): %s", idx, what))
 	}
 }
 
